@@ -148,6 +148,7 @@ C07 = _write("C07", "c07", "control events demanded by the document (and flags) 
 def C16(s, known):
     s.build()
     s.model("TheoryMC", workers=4)
+    s.model("DictMC", workers=4)
     m = s.drive("c16")
     s.validate(m, "C16Trace", known=known, shard=max(20, len_records(m) // 12 + 1))
     return dict(level="model_checking",
